@@ -37,7 +37,7 @@ var c02exprs = []c02tpl{
 	{"a + b", true}, {"a - b", true}, {"a * b", true}, {"a / b", true}, {"a + 3", true}, {"a - 3", true}, {"3 + a", true}, {"a % b", false},
 	{`int(a) + m["k"]`, false}, {"int(a) + s[1]", false}, {"int(a) + o.n", false}, {"o.Get(int(a))", false}, {"id(int(a))", false}, {"G + int(a)", false},
 	{"a /\n\t\tb", true}, {"a +\n\t\tb", true}, {"a *\n\t\tb", true}, {"a -\n\t\tb", true}, {"boom(\n\t\tint(a))", false}, {"o.Boom(\n\t\tint(a))", false}, {"s[int(a)]", false}, {"o.s[int(b)+\n\t\t1]", false},
-	{"int(a) + o.s[1]", false}, {`int(a) + o.m["k"]`, false}, {`m["k"] + s[1]`, false}, {"o.n + o.n", false}, {"int(a) + fm[0.5]", false}, {"s[len(s)-1]", false}, {"int(b) - 0", false}, {"o.p.n + 1", false},
+	{"int(a) + o.s[1]", false}, {`int(a) + o.m["k"]`, false}, {`m["k"] + s[1]`, false}, {"o.n + o.n", false}, {"int(a) + fm[0.5]", false}, {"s[len(s)-1]", false}, {"int(b) - 0", false}, {"o.p.n + 1", false}, {"o.Sum(int(a), 1, 2, 3)", false}, {"o.Sum(int(a))", false}, {"o.Sum(1, s...)", false}, {"vsum(int(a), 2, 3)", false}, {"vsum()", false}, {"vsum(s...)", false},
 }
 
 var c02stmts = []c02tpl{
@@ -97,7 +97,27 @@ func (o *O) Add(a int) {
 	o.n += a
 }
 
+func (o *O) Sum(a int, rest ...int) int {
+	t := a + o.n
+	for _, r := range rest {
+		t += r
+	}
+	return t + len(rest)*100
+}
+
+func vsum(xs ...int) int {
+	t := 0
+	for _, x := range xs {
+		t += x
+	}
+	return t + len(xs)*100
+}
+
 var G = 5
+
+func Reset() {
+	G = 5
+}
 
 func id(a int) int {
 	return a
@@ -151,6 +171,9 @@ func corpusFusion() []cItem {
 		name := fmt.Sprintf("F%d", len(funcs))
 		tn := c4name[t]
 		fn := fmt.Sprintf("func %s(a %s, b %s, c bool) int {\n\to := &O{n: 7, m: map[string]int{\"k\": 4}, s: []int{1, 2, 3}, p: &P{n: 9}}\n\tm := map[string]int{\"k\": 4}\n\tfm := map[float64]int{0.5: 6}\n\ts := []int{1, 2, 3}\n\tr := 0\n%s\treturn r*100000 + int(a)*1000 + o.n*100 + m[\"k\"]*10 + s[1] + o.p.n + fm[0.5] + len(s) + o.s[1] + G\n}\n", name, tn, tn, c02indent(body, "\t"))
+		// W calls F from a frame with live locals: the result must not depend on where F's frame sits on the stack,
+		// and F must not touch its caller's slots (checked by C07 as a differential between the two calls)
+		fn += fmt.Sprintf("\nfunc W%s(a %s, b %s, c bool) int {\n\tp0, p1, p2 := 11, 22, 33\n\tr := %s(a, b, c)\n\tif p0 != 11 || p1 != 22 || p2 != 33 {\n\t\treturn 777777\n\t}\n\treturn r\n}\n", name[1:], tn, tn, name)
 		funcs = append(funcs, fn)
 		vals := [][2]float64{{5, 3}, {9, 1}, {100, 7}, {5, 0}, {1, 2}}
 		switch t {
@@ -167,10 +190,11 @@ func corpusFusion() []cItem {
 		}
 		for _, v := range vals {
 			for _, cb := range []bool{true, false} {
-				calls = append(calls, cCall{Fn: name, NRet: 1, Args: []goatlang.Value{c4value(t, v[0]), c4value(t, v[1]), goatlang.Bool(cb)}})
+				args := []goatlang.Value{c4value(t, v[0]), c4value(t, v[1]), goatlang.Bool(cb)}
+				calls = append(calls, cCall{Fn: "Reset"}, cCall{Fn: name, NRet: 1, Args: args}, cCall{Fn: "Reset"}, cCall{Fn: "W" + name[1:], NRet: 1, Args: args})
 			}
 		}
-		if len(funcs) == 60 {
+		if len(funcs) == 40 {
 			flush()
 		}
 	}
